@@ -137,6 +137,7 @@ def run_case(tier, seed, i):
             v[rng.random(n) < nan_share] = np.nan
         cols[f"c{j}"] = v
     X = pd.DataFrame(cols)
+    X.index = gen.index_for(rng, n, gen.pick(rng, ["range", "offset", "shuffled", "str"]))
     feats = list(cols)
     unknown_n = len({v for v in X["c0"].tolist() if isinstance(v, str) and v.startswith("unk")})  # NaN injection may erase them
     counters = {"leaves_merged": 0, "leaves_kept": 0, "groups_merged_further_up": 0, "values_present_checked": 0, "rows_transformed": 0}
